@@ -1,8 +1,10 @@
 // Demonstration for known finding D9 (C19): copy to /repo/tests/ and run
 //   cargo test --offline --test d9_c19_set_server_role_disables_plugins
-// The test FAILS on the current tree (the finding is not repaired): after
-// `SET SERVER ROLE TO 'primary'` the router reports query_parser_enabled() == false, and
-// Client::handle only dispatches plugins under `if query_router.query_parser_enabled()`.
+// Before the `fix:` commit Client::handle dispatched plugins only under
+// `if query_router.query_parser_enabled()`, and `SET SERVER ROLE TO 'primary'` makes that return false
+// (asserting `qr.query_parser_enabled()` below instead reproduces the defect on the old tree).
+// After the fix the dispatch is guarded by statement_parsing_enabled(), which a client cannot switch off
+// while the pool has plugins.
 use pgcat::config::{Plugins, TableAccess};
 use pgcat::messages::simple_query;
 use pgcat::pool::PoolSettings;
@@ -23,5 +25,7 @@ fn client_cannot_switch_plugin_dispatch_off() {
     assert!(qr.query_parser_enabled());
     assert!(qr.try_execute_command(&simple_query("SET SERVER ROLE TO 'primary'")).is_some());
     // this is the condition that guards every execute_plugins call in Client::handle
-    assert!(qr.query_parser_enabled(), "plugin dispatch gate was switched off by a client command");
+    assert!(qr.statement_parsing_enabled(), "plugin dispatch gate was switched off by a client command");
+    // routing inference stays off, as the client asked
+    assert!(!qr.query_parser_enabled());
 }
